@@ -16,6 +16,8 @@ pub enum Slice {
     AllPresent,
     /// sizing rows for the variable-length leaf with this index
     Sizing(usize),
+    /// rows in which the repeated field with this index holds many items
+    Repeat(usize),
 }
 
 pub fn slices(table: &Table, ty: &TypeDef) -> Vec<Slice> {
@@ -25,6 +27,9 @@ pub fn slices(table: &Table, ty: &TypeDef) -> Vec<Slice> {
     }
     for i in 0..variable_leaves(table, ty).len() {
         out.push(Slice::Sizing(i));
+    }
+    for i in 0..repeated_fields(table, ty).len() {
+        out.push(Slice::Repeat(i));
     }
     out
 }
@@ -38,6 +43,12 @@ pub fn visit_slice(table: &Table, ty: &TypeDef, slice: &Slice, k: usize, f: &mut
                 for vlen in 1..=3 {
                     f(&all_present(table, ty, pick, vlen), "all-present");
                 }
+            }
+        }
+        Slice::Repeat(i) => {
+            let fields = repeated_fields(table, ty);
+            for n in [4usize, 17, 33, 118, 127, 128, 254, 255, 256, 257, 300, 1000] {
+                f(&repeated(table, ty, &fields[*i], n), "many-items");
             }
         }
         Slice::Sizing(i) => {
